@@ -16,12 +16,17 @@ Definition tr_model (i : tr_in) : N :=
   | Ok true => 1%N | Ok false => 0%N | _ => 2%N
   end.
 (* the property on the implementation's verdict: agreed to transmit => every interval starts at the destination's
-   current cursor, no chain twice, and every root is the true root of its interval *)
+   current cursor, no chain twice, every root is the true root of its interval, and — for a report that carries
+   roots — the oracle's read of the destination did not fail.
+   (The last clause, C04_transmit_reader_failure, was missing: the case carries [fails] but the property ignored it,
+   so a verdict "transmit" reached without a successful re-check passed whenever the cursor happened to match;
+   st_ok below always had the clause. Witness and soundness: Proofs/JudgeSoundC04P.v.) *)
 Definition tr_ok (i : tr_in) (o : N) : bool :=
   let '(roots, c, fails) := i in
   if N.eqb o 1 then
     forallb (fun t : troot => N.eqb (fst (snd (fst t))) (next_of c (fst (fst t))) && snd t) roots &&
-    nodupb N.eqb (map (fun t : troot => fst (fst t)) roots)
+    nodupb N.eqb (map (fun t : troot => fst (fst t)) roots) &&
+    (match roots with [] => true | _ => negb fails end)
   else true.
 Definition tr_judge := judge tr_model N.eqb tr_ok (fun _ => 0%N).
 
@@ -94,7 +99,20 @@ Definition rd_model (i : rd_in) : CommitSM.outcome :=
   let '(F, dest, max, n, prev, retry, aos) := i in
   CommitSM.get_outcome max n prev (CommitSM.mkQuery retry None) (round_cons F dest aos).
 (* roots of a consensus map come in map order; the outcome sorts them: compare outcomes field-wise *)
+(* C04_report_roots_are_agreed on the implementation's outcome: with consensus c, every root of the outcome is an
+   agreed root of c — or, in an RMN-retry round of the building state, a root of the previous outcome.
+   (This clause was missing: step_ok speaks of types, cursors and counters only, so an outcome carrying a root
+   nobody agreed on passed. Witness and soundness: Proofs/JudgeSoundC04P.v.) *)
+Definition rd_roots_ok (prev : CommitSM.outcome) (retry : bool) (co : option CommitSM.cons) (o : CommitSM.outcome) : bool :=
+  match co with
+  | None => true
+  | Some c =>
+      forallb (fun r => (CommitSM.state_eqb (CommitSM.next_state (CommitSM.o_type prev)) CommitSM.Building && retry &&
+                         existsb (CommitSM.root_eqb r) (CommitSM.o_roots prev))
+                        || existsb (CommitSM.root_eqb r) (CommitSM.c_roots c)) (CommitSM.o_roots o)
+  end.
 Definition rd_ok (i : rd_in) (o : CommitSM.outcome) : bool :=
   let '(F, dest, max, n, prev, retry, aos) := i in
-  C03_check.step_ok max prev (CommitSM.mkQuery retry None, round_cons F dest aos) o.
+  C03_check.step_ok max prev (CommitSM.mkQuery retry None, round_cons F dest aos) o &&
+  rd_roots_ok prev retry (round_cons F dest aos) o.
 Definition rd_judge := judge rd_model C03_check.outcome_eqb rd_ok (fun _ => 0%N).
